@@ -30,8 +30,8 @@ def run(prop, tier, cov):
             ('legacy: no re-test after a child returns', dict(base, abort='FALSE', budget=2), False, 2),
             ('legacy: no fallback move', dict(base, fallback='FALSE', budget=1), False, 2)]
     if tier == 'thorough':
-        runs.insert(1, ('all trees B=2 D=3 evals {0,1}, cache probes off, budgets 0..1 and none',
-                        dict(base, D=3, vals='Vals2', budget=1), True, 14))
+        runs.insert(1, ('all trees B=2 D=3 evals {0,1}, cache probes off, budget 0 and none',
+                        dict(base, D=3, vals='Vals2', budget=0), True, 14))
     cov.setdefault('mc', {})
 
     def one(r):
